@@ -122,21 +122,47 @@ def fn_params(fn):
     return [(p, t) for p, t in fn.params if not isinstance(t, TErased)] + [(n, t) for n, t, _ in fn.observers]
 
 
+def construct(cls, prefix, lines, reg, specs):
+    """(Lean term building an object of `cls` from parsed values, whether it is `Except Err cls`)"""
+    ci = reg.classes[cls]
+    init = ci.methods.get("__init__")
+    if init is not None:
+        if init.unsupported is not None:
+            raise NoDriver("no constructor")
+        names = []
+        for p, t in fn_params(init):
+            lines.append("let {}_{} ← {}".format(prefix, p, parser(t, reg, specs)))
+            names.append("{}_{}".format(prefix, p))
+        return "(" + " ".join([init.lean] + names) + ")", init.monadic
+    # no translated constructor: the declared fields, objects through their own constructors
+    binds, fields = [], []
+    for f, t in ci.fields.items():
+        t = resolve(t)
+        if isinstance(t, TObj):
+            term, mon = construct(t.cls, "{}_{}".format(prefix, f), lines, reg, specs)
+            if mon:
+                binds.append(("o_{}_{}".format(prefix, f), term))
+                fields.append("{} := o_{}_{}".format(f, prefix, f))
+            else:
+                fields.append("{} := {}".format(f, term))
+        else:
+            lines.append("let {}_{} ← {}".format(prefix, f, parser(t, reg, specs)))
+            fields.append("{} := {}_{}".format(f, prefix, f))
+    term = "(Except.ok ({{ {} }} : {}))".format(", ".join(fields), cls)
+    for nm, b in reversed(binds):
+        term = "({} >>= fun {} => {})".format(b, nm, term)
+    return term, True
+
+
 def handler(i, fn, reg, specs):
     """Lean `do` block (in P) returning the answer string for function number i, or None"""
     if fn.unsupported is not None:
         return None
     lines = []
     call_self = None
+    cm = True
     if fn.self_ty is not None and not fn.is_init:
-        init = reg.classes[fn.cls].methods.get("__init__")
-        if init is None or init.unsupported is not None:
-            raise NoDriver("no constructor")
-        names = []
-        for p, t in fn_params(init):
-            lines.append("let c_{} ← {}".format(p, parser(t, reg, specs)))
-            names.append("c_" + p)
-        call_self = "(" + " ".join([init.lean] + names) + ")"
+        call_self, cm = construct(fn.cls, "c", lines, reg, specs)
     names = []
     for p, t in fn_params(fn):
         lines.append("let a_{} ← {}".format(p, parser(t, reg, specs)))
@@ -151,7 +177,6 @@ def handler(i, fn, reg, specs):
     else:
         call = " ".join([fn.lean, "self"] + names)
         inner = "fmtExcept (fun r => {}) ({})".format(show, call) if fn.monadic else "ok ((fun r => {}) ({}))".format(show, call)
-        cm = reg.classes[fn.cls].methods["__init__"].monadic
         if cm:
             body = "pure (match {} with | .error e => err e | .ok self => {})".format(call_self, inner)
         else:
